@@ -24,7 +24,9 @@ Definition bN (b : bool) (n : N) : N := if b then n else 0%N.
 Record mx_case := {
   x_thr : list (nat * nat * bool);     (* per attempt: member, handle, short timeout *)
   x_ev : list (Z * nat);               (* 0 Acq a | 1 Rel a | 2 Fail a | 3 Keys n | 4 Hung | 5 Regrant a (lease of a's member
-                                          granted again + fresh cluster.Mutex() handle, done by the holder a) *)
+                                          granted again + fresh cluster.Mutex() handle, done by the holder a)
+                                          | 6 Names n (n other lock names were created on one member through
+                                          cluster.Mutex(), then a fresh handle for THE lock name) *)
   x_maxov : Z;                         (* max value of the harness' in-critical-section counter *)
   x_ids : list (list nat)              (* member names / lease keys / lease ids of the members (the secondaries run
                                           with DEFAULT names): per member the index of the first member with the
@@ -55,6 +57,9 @@ Fixpoint mx_replay (q : quirks) (cfg : tid -> thr) (s : state) (ev : list (Z * n
       else if code =? 5 then
         match run q cfg s [(a, LRegrant)] with
         | Some s' => mx_replay q cfg s' rest | None => false end
+      else if code =? 6 then
+        (* handles of other lock names: nothing of this lock changes (one local lock per member and name) *)
+        mx_replay q cfg s rest
       else false
   end.
 
@@ -76,6 +81,8 @@ Fixpoint mx_prop_ev (c : mx_case) (holder : option nat) (ev : list (Z * nat)) : 
         Nat.eqb a 0 && (match holder with None => true | Some _ => false end) && mx_prop_ev c holder rest
       else if code =? 5 then
         (* a fault injected by the holder: no constraint of its own, exclusion must survive it *)
+        mx_prop_ev c holder rest
+      else if code =? 6 then
         mx_prop_ev c holder rest
       else false
   end.
@@ -110,7 +117,8 @@ Definition check_mx (pinned : quirks) (c : mx_case) : result4 :=
              | [] => 0%N
              | _ => (1 + bN (multi_member c) 1 + bN (negb (Nat.eqb (count_code 2 (x_ev c)) 0)) 2
                      + bN (multi_handle c) 4 + bN (Nat.leb 3 (List.length (x_thr c))) 8
-                     + bN (negb (Nat.eqb (count_code 5 (x_ev c)) 0)) 16)%N
+                     + bN (negb (Nat.eqb (count_code 5 (x_ev c)) 0)) 16
+                     + bN (negb (Nat.eqb (count_code 6 (x_ev c)) 0)) 32)%N
              end in
   let attrib :=
     if negb prop && corr && q_local_per_handle pinned &&
